@@ -674,6 +674,9 @@ func c18F10(c *lib.Ctx, top string) {
 		Stderr            string
 	}
 	for _, server := range []string{"os", "rs"} {
+		if c.StopN("c18/"+server, 2) {
+			continue
+		}
 		var seen []obs
 		for _, al := range []string{"off", "on"} {
 			root := filepath.Join(top, "f10-"+server+"-"+al)
@@ -695,6 +698,7 @@ func c18F10(c *lib.Ctx, top string) {
 				}
 			case <-time.After(60 * time.Second):
 				cmd.Process.Kill()
+				lib.SpendHang("c18/"+server, 60*time.Second)
 				exit = "killed after 60 s"
 			}
 			lines := strings.Split(se.String(), "\n")
